@@ -19,6 +19,8 @@ import TwProofs.Lemmas.PrattRoundTrip
 import TwProofs.Lemmas.ParseEval
 import TwProofs.Lemmas.PrattFull
 import TwProofs.Lemmas.PrattFullEval
+import TwProofs.Lemmas.LexWsTop
+import TwProofs.Lemmas.PrattErase
 
 namespace Tw.C01
 open Tw TwSpec
@@ -257,6 +259,66 @@ example :
       (.cons (tk .STR "s") (tk .COLON ":") (.tern (tk .QUESTION "?") (tk .COLON ":") (idt "c") (idt "x") (idt "y")) .nil))) =
     [tk .LBRACE "{", tk .IDENT "k", tk .COLON ":", tk .LBRACKET "[", tk .IDENT "a", tk .RBRACKET "]", tk .COMMA ",",
      tk .STR "s", tk .COLON ":", tk .IDENT "c", tk .QUESTION "?", tk .IDENT "x", tk .COLON ":", tk .IDENT "y", tk .RBRACE "}"] := by decide
+end examples
+
+/-! ### whitespace and newlines -/
+
+/-- **what the lexer does next depends on the remaining bytes, the previous byte and the mode
+    only** — never on the line, the column or what was consumed: from two states that agree on
+    those it returns token lists with the same kinds and literals -/
+theorem tokens_depend_on_the_remaining_input_only (fuel : Nat) (a c : Lx) (h : Sim a c) (ts : List Token) (sf : Lx)
+    (hl : lexAll fuel a = some (ts, sf)) :
+    ∃ ts' sf', lexAll fuel c = some (ts', sf') ∧ ts'.map key = ts.map key ∧ Sim sf sf' :=
+  lexAll_sim fuel a c h ts sf hl
+
+/-- **whitespace between the tokens of code is irrelevant** (any lexer state in code: inside
+    `{{ }}`, inside the parentheses of a directive).  `a` lists the lexemes the lexer reads from `s`
+    with the gaps in front of them (`Reads s a`: each `NextToken` consumes exactly the next lexeme);
+    `c` lists the same lexemes with other gaps — spaces, tabs, newlines, carriage returns, none —
+    where a gap that was not empty stays non-empty (`Respaced a c`).  Then from every state in the
+    same mode the lexer returns tokens of the same kinds and literals for the second spacing, and
+    goes on identically with the common `tail`. -/
+theorem whitespace_between_tokens_never_changes_the_tokens (tail : Bytes) (a c : List (Bytes × Bytes)) (h : Respaced a c)
+    (hne : a ≠ []) (s s' : Lx) (hm : mode s' = mode s) (hr : s.rest = src a tail) (hr' : s'.rest = src c tail)
+    (hreads : Reads s a) (fuel : Nat) (ts : List Token) (sf : Lx) (hl : lexAll fuel s = some (ts, sf)) :
+    ∃ ts' sf', lexAll fuel s' = some (ts', sf') ∧ ts'.map key = ts.map key ∧ Sim sf sf' :=
+  whitespace_between_code_tokens tail a c h hne s s' hm hr hr' hreads fuel ts sf hl
+
+/-- the same for whole templates that begin with "{{": the two templates have token lists of the
+    same kinds and literals and leave the lexer in the same mode -/
+theorem whitespace_in_braces_never_changes_the_tokens (tail : Bytes) (a c : List (Bytes × Bytes)) (h : Respaced a c) (hne : a ≠ [])
+    (hcm : ¬ ((src a tail).headD 0 = 45 ∧ ((src a tail).drop 1).headD 0 = 45))
+    (hreads : Reads (codeState (src a tail)) a) :
+    ∃ r r', tokenize (123 :: 123 :: src a tail) = some r ∧ tokenize (123 :: 123 :: src c tail) = some r' ∧
+      r'.toks.map key = r.toks.map key ∧ r'.insideCode = r.insideCode ∧ r'.panicked = r.panicked :=
+  tokenize_respaced tail a c h hne hcm hreads
+
+/-- **positions never change the value**: two well-formed trees whose (minimal) printings have the
+    same token kinds and literals — which is what two sources that differ in whitespace and
+    newlines only give, by the theorems above — have the same denotation `seval` -/
+theorem token_positions_never_change_the_value (lp rp rbk rbr cm lp' rp' rbk' rbr' cm' : Token)
+    (hlp : lp.ty = .LPAREN) (hrp : rp.ty = .RPAREN) (hrbk : rbk.ty = .RBRACKET) (hrbr : rbr.ty = .RBRACE) (hcm : cm.ty = .COMMA)
+    (klp : key lp' = key lp) (krp : key rp' = key rp) (krbk : key rbk' = key rbk) (krbr : key rbr' = key rbr) (kcm : key cm' = key cm)
+    (e1 e2 : FE) (h1 : e1.ok) (h2 : e2.ok)
+    (heq : (Full.showAt lp rp rbk rbr cm (fun _ => false) (LOWEST + 1) e1).map key =
+           (Full.showAt lp' rp' rbk' rbr' cm' (fun _ => false) (LOWEST + 1) e2).map key) (env : Env) :
+    TwSpec.seval env e1.toExpr.toS = TwSpec.seval env e2.toExpr.toS := by
+  rw [same_keys_same_denotation lp rp rbk rbr cm lp' rp' rbk' rbr' cm' hlp hrp hrbk hrbr hcm klp krp krbk krbr kcm e1 e2 h1 h2 heq]
+
+section examples
+private def it (g u : String) : Bytes × Bytes := (b g, b u)
+private def tight : List (Bytes × Bytes) :=
+  [it "" "1", it "" "+", it "" "2", it "" "*", it "" "x", it "" ".", it "" "y", it "" "<=", it "" "-", it "" "3.5", it "" "}}"]
+private def spaced : List (Bytes × Bytes) :=
+  [it " " "1", it " " "+", it "\n" "2", it "\t" "*", it " " "x", it "" ".", it "  " "y", it " " "<=", it " " "-", it "\r\n" "3.5", it " " "}}"]
+/-- the hypotheses are met by "{{1+2*x.y<=-3.5}}!" and "{{ 1 +\n2\t* x.  y <= -\r\n3.5 }}!" -/
+example : ∃ r r', tokenize (b "{{1+2*x.y<=-3.5}}!") = some r ∧ tokenize (b "{{ 1 +\n2\t* x.  y <= -\r\n3.5 }}!") = some r' ∧
+    r'.toks.map key = r.toks.map key :=
+  have ⟨r, r', h1, h2, h3, _, _⟩ := whitespace_in_braces_never_changes_the_tokens (b "!") tight spaced
+    (respacedB_sound _ _ (by decide)) (by decide) (by decide) (by decide)
+  ⟨r, r', h1, h2, h3⟩
+/-- a gap may not vanish between two lexemes that would merge: "a b" and "ab" -/
+example : respacedB [it " " "a", it " " "b"] [it " " "a", it "" "b"] = false := by decide
 end examples
 
 /-! ### whole renders, evaluated in the kernel (tests of the composed pipeline, labelled as such) -/
